@@ -18,7 +18,7 @@ ASSUMPTIONS = ['oracle: the returned rotation maps both unit references onto bot
                'reference vectors and directions per estimator are those in mc/ref/filters.py (documentation of each class); OLEQ start vector: '
                'np.random.random is an owned seam returning each vector of a fixed menu',
                'OLEQ: tolerance max(1e-6, 1e-7 rho/(1-rho)) with rho the documented contraction ratio of its fixed-point iteration (stopping test 1e-8 on successive iterates)', 'accelerometer-only variants are judged on the gravity direction only']
-REQUIRED_CLASSES = ['S', 'Gp', 'int-samples', 'weights-option', 'tilt-only', 'pose:level', 'pose:inverted', 'pose:vertical', 'pose:half-turn']
+REQUIRED_CLASSES = ['S', 'Gp', 'int-samples', 'weights-option', 'default-references', 'tilt-only', 'pose:level', 'pose:inverted', 'pose:vertical', 'pose:half-turn']
 DIPS_Q = [-45.0, 0.0, 60.0]
 DIPS_T = [-80.0, -45.0, -10.0, 0.0, 1e-9, 10.0, 45.0, 60.0, 80.0]
 SCAL_Q = [(1.0, 1.0), (9.81, 45.0)]
@@ -93,6 +93,10 @@ def _pose_classes(ctx, Rt, q):
 
 
 def _judge(ctx, est, out, g, m, a, mg, sa, sm, tol, site, key):
+    # every exit of every estimator returns a plain numpy.ndarray (an ndarray SUBCLASS such as ahrs.Quaternion would change what *, +, - and @
+    # mean for the caller that composes the result with plain arrays)
+    if isinstance(out, np.ndarray) and type(out) is not np.ndarray and est.name != 'AQUA.estimate[acc-only]':      # (that one exit returns a Quaternion object on the unchanged tree: observation 7.7, not judged)
+        ctx.fail(site + ' [returns a plain numpy.ndarray]', key, type(out).__name__, 'numpy.ndarray')
     Ro = est.to_matrix(out)
     ctx.evals += 1
     if Ro is None:
@@ -343,6 +347,58 @@ def job_weights(ctx, k):
     ctx.sample({'weights': WEIGHTS})
 
 
+def job_default_refs(ctx, k):
+    """Reference vectors OMITTED: an estimator that is given no reference uses the default it reports as its own attribute; its answers are
+    those of the same estimator given that vector explicitly, and they map those references onto the measurements built from them."""
+    from ahrs import filters as F
+    atts = [a for a in attitudes('Gp', k)][::11]
+    for frame in ('NED', 'ENU'):
+        t0 = F.TRIAD(frame=frame)
+        v1, v2 = np.asarray(t0.v1, float), np.asarray(t0.v2, float)
+        u1, u2 = v1 / np.linalg.norm(v1), v2 / np.linalg.norm(v2)
+        ctx.close([float(np.linalg.norm(v1)), float(np.linalg.norm(v2))], [1.0, 1.0], 1e-12, 'TRIAD with references omitted: the default references it reports are unit vectors', f'frame={frame}')
+        for lab, q in atts:
+            Rt = rq.R(q)
+            a = Rt @ u1 * 9.81; m = Rt @ u2 * 45.0                      # TRIAD: A v = w  (direction "fwd")
+            key = f'TRIAD frame={frame} att={lab}'
+            for rep in ('rotmat', 'quaternion'):
+                try:
+                    d_one = np.asarray(F.TRIAD(a.copy(), m.copy(), frame=frame, representation=rep).A, float)
+                    e_one = np.asarray(F.TRIAD(a.copy(), m.copy(), v1=v1.copy(), v2=v2.copy(), frame=frame, representation=rep).A, float)
+                    d_est = np.asarray(F.TRIAD(frame=frame).estimate(a.copy(), m.copy(), representation=rep), float)
+                    d_bat = np.asarray(F.TRIAD(np.array([a, a]), np.array([m, m]), frame=frame, representation=rep).A, float)[1]
+                except Exception as ex:
+                    ctx.fail('TRIAD with references omitted raises', key, f'{type(ex).__name__}: {ex}'[:160], 'an attitude'); continue
+                for nm, o in (('one sample', d_one), ('estimate()', d_est), ('N samples', d_bat)):
+                    same = o.shape == e_one.shape and (float(np.abs(o - e_one).max()) <= 1e-12 or (rep == 'quaternion' and float(np.abs(o + e_one).max()) <= 1e-12))
+                    ctx.expect(same, f'TRIAD[{rep}] with v1, v2 omitted = TRIAD given the default vectors it reports', f'{key} route={nm}', o, e_one, 1e-12)
+                    Ro = o if rep == 'rotmat' else rq.R(rq.qunit(o))
+                    good = rq.so3_defect(Ro) <= 1e-9 and float(np.abs(Ro @ u1 - a / 9.81).max()) <= 1e-6 and float(np.abs(Ro @ u2 - m / 45.0).max()) <= 1e-6
+                    ctx.expect(good, f'TRIAD[{rep}] with v1, v2 omitted: a proper rotation that maps its default references onto the measurements', f'{key} route={nm}', o, 'A v = w', 1e-6)
+            ctx.seen(('default-refs', 'TRIAD', frame, lab))
+    # FQA: magnetic reference omitted
+    f0 = F.FQA()
+    mr = np.asarray(f0.m_ref, float)
+    for lab, q in atts:
+        est = [e for e in rf.registry() if e.name == 'FQA'][0]
+        g, _m = est.refs(60.0, 'NED')
+        mu = mr / np.linalg.norm(mr)
+        Rt = rq.R(q)
+        M = Rt if est.direction == 'fwd' else Rt.T
+        a = M @ g * 9.81; m = M @ mu * 45.0
+        key = f'FQA att={lab}'
+        try:
+            d_one = np.asarray(F.FQA(a.copy(), m.copy()).Q, float); e_one = np.asarray(F.FQA(a.copy(), m.copy(), mag_ref=mr.copy()).Q, float)
+            d_est = np.asarray(F.FQA().estimate(a.copy(), m.copy()), float)
+        except Exception as ex:
+            ctx.fail('FQA with the reference omitted raises', key, f'{type(ex).__name__}: {ex}'[:160], 'an attitude'); continue
+        for nm, o in (('one sample', d_one), ('estimate()', d_est)):
+            same = o.shape == e_one.shape and min(float(np.abs(o - e_one).max()), float(np.abs(o + e_one).max())) <= 1e-12
+            ctx.expect(same, 'FQA with mag_ref omitted = FQA given the default vector it reports', f'{key} route={nm}', o, e_one, 1e-12)
+    ctx.cls('default-references')
+    ctx.sample({'default_references': {'TRIAD.v1': np.asarray(F.TRIAD().v1).tolist(), 'TRIAD.v2': np.asarray(F.TRIAD().v2).tolist()}})
+
+
 def run(ctx):
     A.selftest()
     k = A.seed_k(ctx.seed)
@@ -356,6 +412,7 @@ def run(ctx):
                 jobs.append(('job_est', (e.name, kk, lo, hi)))
     for kk in ks:
         jobs.append(('job_weights', (kk,)))
+        jobs.append(('job_default_refs', (kk,)))
     core.run_jobs(ctx, __name__, jobs)
     ctx.notes['estimator_entries'] = [e.name for e in rf.registry()]
     ctx.notes['class_sizes'] = {c: len(attitudes(c, k)) for c in ('S', 'Gp')}
